@@ -7,27 +7,32 @@
 package log
 
 // ---------------------------------------------------------------------------
-// trusted: encoding/binary (T-std). word(b, p) is the 64-bit little-endian word in b[p:p+8].
+// trusted: encoding/binary (T-std). wordat(b, p) is the 64-bit little-endian word stored at
+// ABSOLUTE position p of b's backing array; base(b) is the absolute position of b[0];
+// raw(b, p) is the byte at absolute position p.
 
 //@ func (encoding/binary.littleEndian).Uint64 params(le, b)
 //@   trusted
 //@   requires [C15.word-bounds] len(b) >= 8
-//@   ensures result0 == word(b, 0)
+//@   ensures result0 == wordat(b, base(b))
 
 //@ func (encoding/binary.littleEndian).PutUint64 params(le, b, v)
 //@   trusted
 //@   requires [C15.word-bounds] len(b) >= 8
 //@   modifies contents(b)
-//@   ensures word(b, 0) == v
-//@   ensures forall(j, j < 0 || j >= 8 ==> b[j] == old(b[j]))
+//@   ensures wordat(b, base(b)) == v
+//@   ensures forall(p, p < base(b) || p >= base(b) + 8 ==> raw(b, p) == old(raw(b, p)))
+//@   ensures forall(p, p + 8 <= base(b) || p >= base(b) + 8 ==> wordat(b, p) == old(wordat(b, p)))
 
 // ---------------------------------------------------------------------------
 // segment: mmap-backed file  [ data ............ | off(n+1) ... off(2) off(1) off(0)=n ]
+// soff(s, k) is offset slot k; slot 0 is the header (number of entries), slot 1 is 0,
+// entry k (1-based) occupies data[soff(k) : soff(k+1)].
 
-//@ pure DataLen(s *segment) int = len(s.file.Data)
-//@ pure soff(s *segment, k int) uint64 = word(s.file.Data, len(s.file.Data) - 8*k - 8)
+//@ pure soff(s *segment, k int) uint64 = wordat(s.file.Data, base(s.file.Data) + len(s.file.Data) - 8*k - 8)
 //@ pure SegBase(s *segment) bool = s.file != nil && len(s.file.Data) >= 24 && len(s.file.Data) <= 1099511627776
-//@ pure SegInv(s *segment) bool = SegBase(s) && 0 <= s.n && 8*(s.n+2) <= len(s.file.Data) && soff(s, 1) == 0 && s.size == soff(s, s.n+1) && s.size <= len(s.file.Data) - 8*(s.n+2) && forallr(k, 1, s.n+1, soff(s, k) <= soff(s, k+1))
+//@ pure SlotPos(s *segment, p int) bool = base(s.file.Data) + len(s.file.Data) - 8*(s.n+1) - 8 <= p && p <= base(s.file.Data) + len(s.file.Data) - 16 && (base(s.file.Data) + len(s.file.Data) - p) % 8 == 0
+//@ pure SegInv(s *segment) bool = SegBase(s) && 0 <= s.n && 8*(s.n+2) <= len(s.file.Data) && soff(s, 1) == 0 && s.size == soff(s, s.n+1) && s.size <= len(s.file.Data) - 8*(s.n+2) && forall(p, q, SlotPos(s, p) && SlotPos(s, q) && q <= p ==> wordat(s.file.Data, p) <= wordat(s.file.Data, q))
 
 //@ func (*segment).at
 //@   requires SegBase(s) && 0 <= i && i <= 137438953472
@@ -42,7 +47,8 @@ package log
 //@   requires SegBase(s) && 0 <= i && 8*i + 8 <= len(s.file.Data) && off >= 0
 //@   modifies contents(s.file.Data)
 //@   ensures [C13.set-offset] soff(s, i) == off
-//@   ensures [C13.set-offset-frame] forall(j, j < len(s.file.Data) - 8*i - 8 || j >= len(s.file.Data) - 8*i ==> s.file.Data[j] == old(s.file.Data[j]))
+//@   ensures [C13.set-offset-frame] forall(p, p < base(s.file.Data) + len(s.file.Data) - 8*i - 8 || p >= base(s.file.Data) + len(s.file.Data) - 8*i ==> raw(s.file.Data, p) == old(raw(s.file.Data, p)))
+//@   ensures [C13.set-offset-words] forall(p, p + 8 <= base(s.file.Data) + len(s.file.Data) - 8*i - 8 || p >= base(s.file.Data) + len(s.file.Data) - 8*i ==> wordat(s.file.Data, p) == old(wordat(s.file.Data, p)))
 
 //@ func (*segment).lastIndex
 //@   requires s.n >= 0
@@ -54,3 +60,122 @@ package log
 
 //@ func (*segment).dirty
 //@   ensures [C14.dirty] result0 == (s.synced < s.n)
+
+// ---------------------------------------------------------------------------
+// durability ghost (T-mmap): File.gdur[p] = byte p of the file as of the last completed
+// Msync. Under power loss the disk holds, byte by byte, either gdur[p] or the current
+// memory byte (written since); the 8-byte header store is not torn.
+//
+// Exposed(s, h, p): byte p is one that a header value h makes visible on reopen: the data of
+// entries 1..h and the offset slots 1..h+1. Stable(s, h): all of those are already durable
+// and equal to memory. CrashOK0(s): whichever header reaches the disk (the durable one or
+// the one in memory), everything it exposes is durable -- so reopening after a crash at
+// this point yields exactly a prefix of the in-memory entries, never a partial entry.
+
+//@ ghost field File.gdur map[uint64]uint64
+//@ pure hdrPos(s *segment) int = base(s.file.Data) + len(s.file.Data) - 8
+//@ pure hdrMem(s *segment) uint64 = soff(s, 0)
+//@ pure hdrDur(s *segment) uint64 = gword(s.file.gdur, hdrPos(s))
+//@ pure Exposed(s *segment, h int, p int) bool = (base(s.file.Data) <= p && p < base(s.file.Data) + soff(s, h+1)) || (base(s.file.Data) + len(s.file.Data) - 8*(h+1) - 8 <= p && p < base(s.file.Data) + len(s.file.Data) - 8)
+//@ pure Stable(s *segment, h int) bool = 0 <= h && 8*(h+2) <= len(s.file.Data) && forall(p, Exposed(s, h, p) ==> s.file.gdur[p] == raw(s.file.Data, p))
+//@ pure CrashOK0(s *segment) bool = Stable(s, hdrMem(s)) && Stable(s, hdrDur(s)) && hdrMem(s) <= s.n
+//@ pure SyncedOK(s *segment) bool = s.synced <= s.n && (s.synced == s.n ==> hdrMem(s) == s.n && hdrDur(s) == s.n)
+//@ pure CrashOK(s *segment) bool = CrashOK0(s) && hdrDur(s) <= s.n && SyncedOK(s)
+
+//@ func (*mmap.File).Sync
+//@   trusted
+//@   modifies f.gdur
+//@   ensures result0 == nil ==> forall(p, base(f.Data) <= p && p < base(f.Data) + len(f.Data) ==> f.gdur[p] == raw(f.Data, p))
+//@   ensures result0 == nil ==> forall(p, base(f.Data) <= p && p + 8 <= base(f.Data) + len(f.Data) ==> gword(f.gdur, p) == wordat(f.Data, p))
+//@   ensures result0 != nil ==> forall(p, f.gdur[p] == old(f.gdur[p]) || f.gdur[p] == raw(f.Data, p))
+//@   ensures result0 != nil ==> gword(f.gdur, base(f.Data) + len(f.Data) - 8) == old(gword(f.gdur, base(f.Data) + len(f.Data) - 8)) || gword(f.gdur, base(f.Data) + len(f.Data) - 8) == wordat(f.Data, base(f.Data) + len(f.Data) - 8)
+
+//@ func (*segment).append
+//@   requires SegInv(s) && CrashOK(s)
+//@   requires [C13.append-fits] s.size + len(b) <= len(s.file.Data) - 8*(s.n+2) - 8
+//@   requires arrof(b) != arrof(s.file.Data)
+//@   modifies s.n, s.size, contents(s.file.Data)
+//@   ensures [C13.append] SegInv(s) && s.n == old(s.n) + 1 && soff(s, s.n) == old(s.size) && s.size == old(s.size) + len(b)
+//@   ensures [C13.append-bytes] forall(p, base(s.file.Data) + old(s.size) <= p && p < base(s.file.Data) + s.size ==> raw(s.file.Data, p) == raw(b, base(b) + (p - base(s.file.Data) - old(s.size))))
+//@   ensures [C13.append-frame] forall(p, (p < base(s.file.Data) + old(s.size) || p >= base(s.file.Data) + s.size) && (p < base(s.file.Data) + len(s.file.Data) - 8*(old(s.n)+2) - 8 || p >= base(s.file.Data) + len(s.file.Data) - 8*(old(s.n)+2)) ==> raw(s.file.Data, p) == old(raw(s.file.Data, p)))
+//@   ensures [C14.append-crash-ok] CrashOK(s)
+//@   crash_inv [C14.append-crash-ok] CrashOK(s)
+
+//@ func (*segment).get
+//@   requires SegInv(s)
+//@   requires [C13.get-range] s.prevIndex < i && i - s.prevIndex + n <= s.n + 1 && n <= 1099511627776
+//@   ensures [C13.get] arrof(result0) == arrof(s.file.Data) && base(result0) == base(s.file.Data) + soff(s, i - s.prevIndex) && len(result0) == soff(s, i - s.prevIndex + n) - soff(s, i - s.prevIndex)
+
+//@ func (*segment).sync
+//@   requires SegInv(s) && CrashOK0(s) && SyncedOK(s)
+//@   modifies s.synced, contents(s.file.Data), s.file.gdur
+//@   ensures [C14.sync-header-last] result0 == nil ==> hdrDur(s) == s.n && hdrMem(s) == s.n && s.synced == s.n
+//@   ensures [C14.sync-keeps] SegInv(s) && CrashOK0(s) && SyncedOK(s) && (result0 == nil || old(CrashOK(s)) ==> CrashOK(s)) && s.n == old(s.n) && s.size == old(s.size)
+//@   ensures [C13.sync-frame] forall(p, p < hdrPos(s) || p >= hdrPos(s) + 8 ==> raw(s.file.Data, p) == old(raw(s.file.Data, p)))
+//@   crash_inv [C14.sync-crash-ok] CrashOK0(s) && (old(CrashOK(s)) ==> hdrDur(s) <= s.n)
+
+//@ func (*segment).removeGTE
+//@   requires SegInv(s) && CrashOK(s)
+//@   requires [C13.remove-range] i > s.prevIndex && i - s.prevIndex - 1 <= 1099511627776
+//@   modifies s.n, s.size, s.synced, contents(s.file.Data), s.file.gdur
+//@   ensures [C13.remove-gte] SegInv(s) && (old(s.n) > i - s.prevIndex - 1 ==> s.n == i - s.prevIndex - 1) && (old(s.n) <= i - s.prevIndex - 1 ==> s.n == old(s.n))
+//@   ensures [C13.remove-frame] forall(p, p < hdrPos(s) || p >= hdrPos(s) + 8 ==> raw(s.file.Data, p) == old(raw(s.file.Data, p)))
+//@   ensures [C14.remove-durable] result0 == nil ==> hdrDur(s) == s.n && hdrMem(s) == s.n
+//@   ensures [C14.remove-crash-ok] CrashOK0(s) && (result0 == nil ==> CrashOK(s))
+//@   crash_inv [C14.remove-crash-ok] CrashOK0(s)
+
+// ---------------------------------------------------------------------------
+// Log: doubly linked list of segments. Log.gin is the ghost set of the segments of the list.
+
+//@ ghost field Log.gin map[uint64]bool
+//@ pure InList(l *Log, x *segment) bool = l.gin[ref(x)]
+//@ pure SegOK(l *Log, x *segment) bool = SegInv(x) && CrashOK(x) && (x.prev != nil ==> l.gin[ref(x.prev)] && x.prev.next == x && x.prev.prevIndex + x.prev.n == x.prevIndex && x.prev.n > 0) && (x.next != nil ==> l.gin[ref(x.next)] && x.next.prev == x) && (x.prev == nil ==> x == l.first) && (x.next == nil ==> x == l.last) && x.prevIndex + x.n < 18446744073709551615
+//@ pure LogShape(l *Log) bool = l.first != nil && l.last != nil && InList(l, l.first) && InList(l, l.last) && l.first.prev == nil && l.last.next == nil && forall(x, l.gin[x] ==> x != 0 && SegOK(l, x))
+//@ pure LogPrev(l *Log) uint64 = ite(l.index == nil, l.first.prevIndex, l.index[0])
+//@ pure LogLast(l *Log) uint64 = ite(l.index == nil, l.last.prevIndex + l.last.n, l.index[1])
+//@ pure SegHolds(x *segment, i uint64, b []byte) bool = x.prevIndex < i && i <= x.prevIndex + x.n && arrof(b) == arrof(x.file.Data) && base(b) == base(x.file.Data) + soff(x, i - x.prevIndex) && len(b) == soff(x, i - x.prevIndex + 1) - soff(x, i - x.prevIndex)
+
+//@ func (*Log).PrevIndex
+//@   requires l.index == nil ==> l.first != nil
+//@   requires l.index != nil ==> len(l.index) == 2
+//@   ensures [C13.prev-index] result0 == LogPrev(l)
+
+//@ func (*Log).LastIndex
+//@   requires l.index == nil ==> l.last != nil && l.last.n >= 0 && l.last.prevIndex + l.last.n < 18446744073709551616
+//@   requires l.index != nil ==> len(l.index) == 2
+//@   ensures [C13.last-index] result0 == LogLast(l)
+
+//@ func (*Log).segment
+//@   requires LogShape(l) && l.index == nil
+//@   requires [C13.segment-range] i <= LogLast(l)
+//@   ensures [C13.segment] (i <= LogPrev(l)) == (result0 == nil)
+//@   ensures [C13.segment-holds] result0 != nil ==> InList(l, result0) && result0.prevIndex < i && i <= result0.prevIndex + result0.n
+//@   loop 1 invariant s != nil && InList(l, s) && i <= s.prevIndex + s.n && s.prevIndex >= l.first.prevIndex
+
+//@ func (*Log).Contains
+//@   requires LogShape(l) && l.index == nil
+//@   ensures [C13.contains] result0 == (i > LogPrev(l) && i <= LogLast(l))
+
+//@ func (*Log).Count
+//@   requires LogShape(l) && l.index == nil
+//@   ensures [C13.count] LogLast(l) >= LogPrev(l) ==> result0 == LogLast(l) - LogPrev(l)
+
+//@ func (*Log).Get
+//@   requires LogShape(l) && l.index == nil
+//@   requires [C13.get-range] i <= LogLast(l)
+//@   ensures [C13.get-notfound] (result1 != nil) == (i <= LogPrev(l)) && (result1 != nil ==> result1 == ErrNotFound)
+//@   ensures [C13.get-entry] result1 == nil ==> exists(x, l.gin[x] && SegHolds(x, i, result0))
+
+//@ func (*Log).ViewAt
+//@   requires LogShape(l) && l.index == nil
+//@   requires [C03.view-bounds] lastIndex <= LogLast(l)
+//@   ensures [C13.view-nil] (result0 == nil) == (prevIndex > lastIndex || prevIndex < LogPrev(l))
+//@   ensures [C13.view] result0 != nil ==> isfresh(result0) && result0.index != nil && len(result0.index) == 2 && LogPrev(result0) == prevIndex && LogLast(result0) == lastIndex && InList(l, result0.first) && result0.first.prevIndex <= prevIndex
+//@   loop 1 invariant s != nil && InList(l, s)
+
+//@ func (*Log).CommitN
+//@   requires LogShape(l)
+//@   modifies segment.synced, elems(uint8), File.gdur
+//@   ensures [C14.commitn-last] result0 == nil && l.last.prevIndex < n ==> hdrDur(l.last) == l.last.n && hdrMem(l.last) == l.last.n
+//@   ensures [C14.commitn-keeps] LogShape(l)
+//@   loop 1 invariant LogShape(l) && (s != nil ==> InList(l, s)) && (s != l.last && l.last.prevIndex < n ==> hdrDur(l.last) == l.last.n && hdrMem(l.last) == l.last.n)
